@@ -88,6 +88,15 @@ G1e(z) == {[fam |-> "G1e",
             prog |-> Program(<<Struct("R", Mod, <<>>, <<SField("x", P_Adt("D", i1)), SField("y", P_Adt("D", i2))>>), G1bDef(e1, e2, k)>> \o Helpers, <<>>),
             roots |-> <<A0("R")>>] : e1 \in FieldExprsE1, e2 \in FieldExprsE2, k \in {"struct", "enum"}, i1 \in ArgPairsE, i2 \in ArgPairsE}
 
+(* G1f: a `#[codec(compact)]` field whose declared type is a bare parameter (registry: Compact<T>, type name "T") *)
+ArgPairsF == {<<u32, bool>>, <<u64, u8>>, <<u8, u16>>}
+G1fDef(e2, kind) ==
+  IF kind = "struct" THEN Struct("D", Mod, <<Param("T"), Param("U")>>, <<CField("a", T), SField("b", e2)>>)
+  ELSE Enum("D", Mod, <<Param("T"), Param("U")>>, <<Variant("X", 0, <<CField("", T)>>), Variant("Y", 1, <<SField("p", e2), CField("q", T)>>)>>)
+G1f(z) == {[fam |-> "G1f",
+            prog |-> Program(<<Struct("R", Mod, <<>>, <<SField("x", P_Adt("D", i1)), SField("y", P_Adt("D", i2))>>), G1fDef(e2, k)>> \o Helpers, <<>>),
+            roots |-> <<A0("R")>>] : e2 \in {U, P_Vec(T), u8, P_Opt(U), P_Tup(<<T, U>>)}, k \in {"struct", "enum"}, i1 \in ArgPairsF, i2 \in ArgPairsF}
+
 (* G1c: definitions in nested modules referring to each other, recursion through Box/Vec/Option<Box> *)
 RecKinds == {"box", "vec", "optbox", "mutual", "generic", "posbox", "shadow"}
 G1cCase(rk, docs) ==
@@ -232,6 +241,8 @@ G2Defs == <<
   V(Struct("FooT2", Mod, <<>>, <<SField("", u8), SField("", u8)>>)),
   V(Struct("FooV", Mod, <<Param("T")>>, <<SField("a", T), SField("b", P_Vec(u32))>>)),
   V(Struct("FooG2", Mod, <<Param("T"), Param("U")>>, <<SField("a", T), SField("b", U)>>)),
+  V(Struct("FooN1", Mod, <<>>, <<SField("version", u8), SField("number", u16)>>)),
+  V(Struct("FooN2", Mod, <<>>, <<SField("number", u16), SField("version", u8)>>)),
   V(Struct("FooP1", Mod, <<Param("T"), Param("U")>>, <<SField("", P_Vec(T)), SField("", P_Vec(U))>>)),
   V(Struct("FooP2", Mod, <<Param("T"), Param("U")>>, <<SField("", P_Vec(U)), SField("", P_Vec(T))>>)),
   V(Struct("FooR", Mod, <<>>, <<SField("next", P_Opt(P_Box(A0("FooR")))), SField("v", u8)>>)),
@@ -275,7 +286,7 @@ G2Prog == Program(G2Defs, <<CfgC1, CfgC2>>)
 G2Members == {P_Adt("FooG", <<u8>>), P_Adt("FooG", <<u16>>), P_Adt("FooG", <<bool>>), A0("FooC8"), A0("FooC16"),
               P_Adt("FooA", <<A0("C1")>>), P_Adt("FooA", <<A0("C2")>>), P_Adt("FooA2", <<A0("C1")>>), P_Adt("FooA2", <<A0("C2")>>),
               A0("FooX"), A0("FooX2"), A0("FooE"), A0("FooE2"), A0("FooE3"), A0("FooE4"), A0("FooT"), A0("FooT2"),
-              P_Adt("FooV", <<u32>>), P_Adt("FooV", <<u8>>), P_Adt("FooG2", <<u8, bool>>), P_Adt("FooP1", <<u8, bool>>), P_Adt("FooP2", <<u8, bool>>), A0("FooR"), A0("FooR2"),
+              P_Adt("FooV", <<u32>>), P_Adt("FooV", <<u8>>), P_Adt("FooG2", <<u8, bool>>), P_Adt("FooP1", <<u8, bool>>), P_Adt("FooP2", <<u8, bool>>), A0("FooN1"), A0("FooN2"), A0("FooR"), A0("FooR2"),
               P_Adt("FooA3", <<A0("C1"), u8, u16>>), P_Adt("FooA3", <<A0("C2"), u8, u16>>)}
 \* the (large) program is referenced by name so that the case records stay small: see ProgOf
 G2Case(roots) == [fam |-> "G2p", pid |-> "G2", prog |-> NoProg, roots |-> roots]
